@@ -23,8 +23,18 @@ use tokio::{
     time::Instant,
 };
 
+pub struct Hook(pub Box<dyn FnOnce()>);
+impl std::fmt::Debug for Hook {
+    fn fmt(&self, f: &mut std::fmt::Formatter<'_>) -> std::fmt::Result {
+        f.write_str("Hook")
+    }
+}
+
 #[derive(Debug)]
 pub struct Shared {
+    /// called once, just before the peer releases the first segment that starts at or after this
+    /// input offset (used to fire a signal *before* bytes in the same scheduler turn)
+    pub send_hook: Option<(usize, Hook)>,
     /// connection id (for `on_connect_ext` data)
     pub id: u32,
     pub t0: Instant,
@@ -107,6 +117,7 @@ pub struct Peer(pub Rc<RefCell<Shared>>);
 
 pub fn pair() -> (SimIo, Peer) {
     let sh = Rc::new(RefCell::new(Shared {
+        send_hook: None,
         id: 0,
         t0: Instant::now(),
         rx: VecDeque::new(),
@@ -495,10 +506,18 @@ pub async fn run_peer(peer: Peer, input: Bytes, ops: Vec<PeerOp>, is_head: Vec<b
             PeerOp::Send(a, b) => {
                 let a = a.min(input.len());
                 let b = b.clamp(a, input.len());
-                {
+                let hook = {
                     let mut s = peer.0.borrow_mut();
                     let now = s.now_ms();
                     s.send_log.push((now, a, b));
+                    if s.send_hook.as_ref().is_some_and(|(off, _)| a >= *off) {
+                        s.send_hook.take().map(|(_, h)| h.0)
+                    } else {
+                        None
+                    }
+                };
+                if let Some(h) = hook {
+                    h();
                 }
                 peer.send(input.slice(a..b));
             }
